@@ -307,7 +307,11 @@ func (r *report) replayAll() {
 			continue
 		}
 		r.replays++
-		ok, tags, _, err := runReplay(dir, 5*time.Minute)
+		to := 5 * time.Minute
+		if strings.HasPrefix(p.v.Tag, "nontermination") {
+			to = 30 * time.Second // a native run that is still going after this long is the hang
+		}
+		ok, tags, _, err := runReplay(dir, to)
 		switch {
 		case err != nil:
 			r.incon("unit %s: replay of %q failed to run: %v (see %s/replay.out)", p.unit.Name, p.v.Tag, err, dir)
